@@ -1,5 +1,5 @@
 """which deductive kernel jobs carry which property"""
-from . import kernel_edges, kernel_edit, kernel_functions, kernel_join, kernel_remove, kernel_split
+from . import kernel_auxdata, kernel_edges, kernel_edit, kernel_functions, kernel_join, kernel_remove, kernel_split
 
 # (module, predicate on obligation clause) : a kernel job is run once per property that lists it; evidence counts every
 # obligation of that job under the property (the clause letters G/L/E/T/C/F/O say which property each one carries)
@@ -8,7 +8,7 @@ KERNELS = {
     "C02": [kernel_split, kernel_join, kernel_remove],
     "C03": [kernel_split, kernel_edges, kernel_join, kernel_remove],
     "C04": [kernel_edit, kernel_split, kernel_join],
-    "C05": [kernel_functions, kernel_join, kernel_remove],
+    "C05": [kernel_functions, kernel_join, kernel_remove, kernel_auxdata],
     "C06": [kernel_split, kernel_functions, kernel_join],
     "C08": [kernel_split, kernel_join, kernel_remove],
 }
